@@ -69,12 +69,14 @@ class Poisson(DiscreteRandomVariable):
         self.mu = mu
 
     def cdf(self, x):
-        return math.exp(-self.mu) * sum(self.mu**j / factorial(j) for j in range(x+1))
+        return math.fsum(self.pmf(j) for j in range(x+1))
 
     def pmf(self, x):
         if x < 0:
             return 0
-        return self.mu**x * math.exp(-self.mu) / factorial(x)
+        # Evaluated in log space: mu**x, exp(-mu) and x! leave the float
+        # range long before their quotient does.
+        return math.exp(x*math.log(self.mu) - self.mu - math.lgamma(x+1))
 
     def mean(self):
         return self.mu
